@@ -6,9 +6,11 @@ WHAT = 'ThreadPool runs every submitted task exactly once'
 
 def run(ctx):
     thorough = ctx.tier == 'thorough'
-    ctx.check_model(pc.SPEC, 'MCPool.tla', 'MC_basic2.cfg', WHAT, label='2 workers: fq, sched, destructor; time-outs on',
-                    workers=6, vacuity_exempt=VAC)
+    ctx.check_model(pc.SPEC, 'MCPool.tla', 'MC_q2_basic.cfg', WHAT, label='2 workers: fq racing the workers and the destructor',
+                    workers=8, vacuity_exempt=VAC, timeout=1500)
     if thorough:
+        ctx.check_model(pc.SPEC, 'MCPool.tla', 'MC_q_basic.cfg', WHAT, label='2 workers: fq, sched, destructor', workers=12,
+                        vacuity_exempt=VAC, timeout=3000, heap='16g')
         ctx.check_model(pc.SPEC, 'MCPool.tla', 'MC_idle_bulk.cfg', WHAT, label='3 workers: bulk from idle', workers=8, vacuity_exempt=VAC)
     exe = pc.build(ctx, 2)
     rng = random.Random(ctx.seed)
